@@ -3,6 +3,7 @@ package props
 import (
 	"errors"
 	"fmt"
+	"time"
 	"sort"
 	"strings"
 
@@ -475,8 +476,76 @@ func c05OwnIssue(c *core.Ctx) bool {
 	return true
 }
 
+// c05Directed: (a) a failing custom test of a catching node that files an issue of its own AND returns false (two issues from one call):
+// none of them is contributed, the destination is the catch value; (b) a custom coercer whose error is a *ZogIssue: a coercion failure
+// like any other, the destination is the catch value; (c) a time Catch value taken from time.Now() is handed out as it is.
+func c05Directed(c *core.Ctx) bool {
+	type rec struct {
+		A string
+		B string
+	}
+	for _, mode := range []string{"Parse", "Validate"} {
+		st := z.Struct(z.Schema{
+			"a": z.String().TestFunc(func(v any, ctx z.Ctx) bool {
+				ctx.AddIssue(ctx.Issue().SetCode("explained").SetMessage("why it failed"))
+				return false
+			}).Catch("caught"),
+			"b": z.String().Min(5),
+		})
+		d := rec{A: "abc", B: "b"}
+		var m z.ZogIssueMap
+		if mode == "Parse" {
+			d = rec{}
+			m = st.Parse(map[string]any{"a": "abc", "b": "b"}, &d)
+		} else {
+			m = st.Validate(&d)
+		}
+		c.Eval(1)
+		if keys := dKeys(m); keys != "b" || d.A != "caught" {
+			c.Violation("catching-node-contributed-an-issue|custom-test-filing-two-issues|"+mode, map[string]any{"schema": "{a: String().TestFunc(files ctx.AddIssue(...) and returns false).Catch(caught), b: String().Min(5)}", "issue_keys": keys, "a_after": d.A, "want": "one issue at b, a == caught"})
+			return false
+		}
+	}
+	refuse := func(d any) (any, error) {
+		if d == "bad" {
+			return nil, &z.ZogIssue{Code: "not_a_number", Message: "refused by the coercer"}
+		}
+		return 7, nil
+	}
+	n := 3
+	l := z.Int(z.WithCoercer(refuse)).GT(100).Catch(50).Parse("bad", &n)
+	n2 := 3
+	l2 := z.Int(z.WithCoercer(refuse)).Catch(50).Parse("fine", &n2)
+	c.Eval(2)
+	if len(l) != 0 || n != 50 || len(l2) != 0 || n2 != 7 {
+		c.Violation("catch-value-not-placed|coercer-error-is-a-ZogIssue", map[string]any{"schema": "Int(WithCoercer(returns a *ZogIssue as its error for \"bad\", 7 otherwise)).GT(100).Catch(50)", "input": "bad / fine", "issues": fmt.Sprint(z.Issues.SanitizeList(l), z.Issues.SanitizeList(l2)), "destinations": fmt.Sprint(n, n2), "want": "no issues; 50 / 7"})
+		return false
+	}
+	v := time.Now()
+	for _, mode := range []string{"Parse", "Validate"} {
+		var t time.Time
+		var li z.ZogIssueList
+		if mode == "Parse" {
+			li = z.Time().Catch(v).Parse("not a time", &t)
+		} else {
+			t = time.Date(2001, 1, 1, 0, 0, 0, 0, time.UTC)
+			li = z.Time().After(time.Date(2020, 1, 1, 0, 0, 0, 0, time.UTC)).Catch(v).Validate(&t)
+		}
+		c.Eval(1)
+		if len(li) != 0 || t != v {
+			c.Violation("catch-value-not-placed|time-value|"+mode, map[string]any{"schema": "Time().Catch(v) with v := time.Now()", "destination == v": t == v, "destination.Equal(v)": t.Equal(v), "issues": fmt.Sprint(z.Issues.SanitizeList(li))})
+			return false
+		}
+	}
+	c.Count("directed_catch_scenarios", 1)
+	return true
+}
+
 func (c05) RunCase(c *core.Ctx) {
 	if c.Case%40 == 5 && !c05OwnIssue(c) {
+		return
+	}
+	if c.Case%40 == 6 && !c05Directed(c) {
 		return
 	}
 	S := c05Schema(c.R)
